@@ -4,6 +4,13 @@ All R-TERM: polynomial facts about q^2 (incl. agreement with the Kallen function
 in another module), the common skeleton of the three plain variants, the two-branch
 definition of ComplexSqrt and its printers, the wiring of the two Chew-Mandelstam based
 variants and the three-row case table of the analytic continuation.
+
+Formulas are compared in a normal form in which every application of a repo expression class is
+replaced by what its evaluate() builds (`_normal`), so it does not matter in which class / helper /
+inline a formula is written.  The printers of ComplexSqrt are RUN on an abstract printer (c08.CodeEval)
+and the generated code is parsed.  Verdicts are three-valued: a term with a sub-term outside the term
+domain (an opaque call, an attribute of an unknown object), a Piecewise of another shape, a printer the
+evaluator cannot run are ANALYSIS-ERRORs with the reason - never violations.
 """
 
 from __future__ import annotations
@@ -38,32 +45,149 @@ def run(ctx: Check, tree: Tree) -> None:
     ctx.assumptions += ["sqrt / Abs / log / atan semantics of SymPy and NumPy; formal algebra at a generic positive point"]
     D.reset()
     te = TermEval(tree)
-    s, m1, m2 = sym("s"), sym("m1"), sym("m2")
+    ctx.section(check_breakup_momentum, ctx, tree, te)
+    ctx.section(check_plain_variants, ctx, tree, te)
+    ctx.section(check_complex_sqrt, ctx, tree, te)
+    ctx.section(check_chew_mandelstam, ctx, tree, te)
+    ctx.section(check_equal_mass, ctx, tree, te)
+    from .c14 import check_arg_order
 
-    def C(name, *args, mod=PH):
-        return te.construct(f"{mod}::{name}", list(args), {})
+    ctx.section(check_arg_order, ctx, tree)
 
-    def unfold1(v: RF):
-        return te._rf(te.unfold_atom(te.single_atom(v)))
 
+S, M1, M2 = sym("s"), sym("m1"), sym("m2")
+
+
+def _construct(te: TermEval, name: str, *args, mod: str = PH) -> RF:
+    q = f"{mod}::{name}"
+    if q not in te.classes:
+        raise AnalysisError(f"vanished anchor: expression class {q}")
+    return te.construct(q, list(args), {})
+
+
+def _evaluate_of(tree: Tree, cls):
+    """The evaluate() an instance of the class runs (its own or inherited from a repo base class)."""
+    m = tree.lookup_method(cls, "evaluate")
+    if m is None:
+        raise AnalysisError(f"vanished anchor: {cls.qual}.evaluate")
+    return m
+
+
+def _unfold1(te: TermEval, v: RF):
+    return te._rf(te.unfold_atom(te.single_atom(v)))
+
+
+def _normal(te: TermEval, v: RF, depth: int = 0) -> RF:
+    """The term with every application of a repo expression class replaced by what its ``evaluate()`` builds -
+    also inside square roots and inside the arguments of elementary functions (``sqrt(Abs(q2(s, m1, m2)))``).
+    Two spellings that differ only in WHERE a formula is written (its own class, a helper, inline) get the same
+    normal form; a different formula does not."""
+    from ..terms import vkey
+
+    if depth > 12:
+        raise AnalysisError("unfolding of nested expression classes does not terminate")
+    for _ in range(12):
+        changed = False
+        for a in list(v.atoms()):
+            if isinstance(a, tuple) and a and a[0] == "sqrt":
+                rad = RF(D.radicands[a])
+                new = _normal(te, rad, depth + 1)
+                if vkey(new) != vkey(rad):
+                    v = v.substitute(a, sqrt(new))
+                    changed = True
+            elif te.is_app(a) and a in te.apps:
+                info = te.apps[a]
+                if info.cls in te.classes:
+                    if te.classes[info.cls].method("evaluate") is None:
+                        continue
+                    v = v.substitute(a, _normal(te, te._rf(te.unfold_atom(a)), depth + 1))
+                    changed = True
+                else:
+                    args = [_normal(te, x, depth + 1) if isinstance(x, RF) else x for x in info.args]
+                    new_atom = _canonical_app(te, info.cls, args, info.kwargs)
+                    if te.single_atom(new_atom) != a:
+                        v = v.substitute(a, new_atom)
+                        changed = True
+        if not changed:
+            return v
+    raise AnalysisError("unfolding of nested expression classes does not reach a fixed point")
+
+
+def _canonical_app(te: TermEval, cls: str, args: list, kwargs: dict) -> RF:
+    """The application ``cls(*args)`` - THE SAME atom for arguments that are equal as rational functions even if
+    they were built differently (an unreduced fraction after a substitution vs the directly computed one)."""
+    from ..terms import vkey
+
+    registry = te.__dict__.setdefault("_canonical_apps", {})
+    for known_args, atom in registry.get(cls, []):
+        if len(known_args) == len(args) and all(
+            (isinstance(x, RF) and isinstance(y, RF) and equal(x, y)) or (not isinstance(x, RF) and not isinstance(y, RF) and vkey(x) == vkey(y))
+            for x, y in zip(known_args, args)
+        ):
+            return atom
+    atom = te.app(cls, args, kwargs)
+    registry.setdefault(cls, []).append((args, atom))
+    return atom
+
+
+def _same(te: TermEval, a: RF, b: RF) -> bool:
+    return equal(a, b) or equal(_normal(te, a), _normal(te, b))
+
+
+def _foreign_atoms(te: TermEval, v, allowed_apps: set[str] = frozenset()) -> list[str]:
+    """Sub-terms that are not part of the term domain the comparisons below are decided in: symbols, square
+    roots, applications of repo expression classes / of the named elementary functions.  An opaque call
+    (a callable the evaluator could not follow), an attribute or an item of an unknown object is foreign: a
+    comparison that involves one proves nothing, neither equality nor difference."""
+    from ..terms import deep_atoms
+
+    out = []
+    for a in deep_atoms(te, v):
+        if isinstance(a, str):
+            continue
+        if isinstance(a, tuple) and a and a[0] == "sqrt":
+            continue
+        if te.is_app(a) and a in te.apps:
+            cls = te.apps[a].cls
+            if cls in te.classes or cls in allowed_apps:
+                continue
+        out.append(repr(a)[:70])
+    return out
+
+
+def _require_understood(te: TermEval, v, what: str, allowed_apps: set[str] = frozenset()) -> None:
+    foreign = _foreign_atoms(te, v, allowed_apps)
+    if foreign:
+        raise AnalysisError(f"{what}: the extracted term contains a sub-term outside the term domain ({foreign[0]}): cannot decide")
+
+
+def check_breakup_momentum(ctx: Check, tree: Tree, te: TermEval) -> None:
+    s, m1, m2 = S, M1, M2
     # ---- (a) q^2
     q2cls = tree.cls(f"{PH}::BreakupMomentumSquared")
-    where = tree.loc(q2cls.methods["evaluate"].node)
-    q2 = unfold1(C("BreakupMomentumSquared", s, m1, m2))
-    q2_swapped = unfold1(C("BreakupMomentumSquared", s, m2, m1))
+    where = tree.loc(_evaluate_of(tree, q2cls).node)
+    q2 = _normal(te, _unfold1(te, _construct(te, "BreakupMomentumSquared", s, m1, m2)))
+    q2_swapped = _normal(te, _unfold1(te, _construct(te, "BreakupMomentumSquared", s, m2, m1)))
+    if q2.atoms() - {"s", "m1", "m2"}:
+        raise AnalysisError(f"BreakupMomentumSquared.evaluate is not a rational function of s, m1, m2 (contains {sorted(map(repr, q2.atoms() - {'s', 'm1', 'm2'}))[0][:60]}): cannot decide the polynomial facts about q^2")
     key = f"{q2cls.qual}.evaluate"
     ctx.verdict(equal(q2, q2_swapped), "R-TERM", key + "::symmetric", where, "q^2(s, m1, m2) == q^2(s, m2, m1)")
     for sign, label in ((1, "threshold (m1+m2)^2"), (-1, "pseudo-threshold (m1-m2)^2")):
         at = q2.substitute("s", (m1 + sign * m2) ** 2)
         ctx.verdict(at.is_zero(), "R-TERM", key + f"::zero-at-{'plus' if sign > 0 else 'minus'}", where, f"q^2 vanishes at s = {label}", None if at.is_zero() else repr(at)[:120])
-    kallen = te.unfold(C("Kallen", s, m1**2, m2**2, mod="ampform.kinematics.phasespace"))
+    kallen = te.unfold(_construct(te, "Kallen", s, m1**2, m2**2, mod="ampform.kinematics.phasespace"))
+    if kallen.atoms() - {"s", "m1", "m2"}:
+        raise AnalysisError("kinematics.phasespace.Kallen.evaluate is not a polynomial in its arguments: cannot decide the cross-module comparison")
     ok = equal(q2 * 4 * s, kallen)
     ctx.verdict(ok, "R-TERM", key + "::kallen", where, "4*s*q^2 == Kallen(s, m1^2, m2^2) (definition in ampform.kinematics.phasespace)", None if ok else {"4s q2": repr(q2 * 4 * s)[:150], "kallen": repr(kallen)[:150]})
     posdef = equal(q2 * 4 * s, (s - (m1 + m2) ** 2) * (s - (m1 - m2) ** 2))
     ctx.verdict(posdef, "R-TERM", key + "::factorised", where, "4*s*q^2 == (s-(m1+m2)^2)(s-(m1-m2)^2): positive above threshold, negative between the thresholds")
 
+
+def check_plain_variants(ctx: Check, tree: Tree, te: TermEval) -> None:
+    s, m1, m2 = S, M1, M2
     # ---- (b)/(c) the three plain variants
-    Q = C("BreakupMomentumSquared", s, m1, m2)
+    Q = _construct(te, "BreakupMomentumSquared", s, m1, m2)
     variants = {
         "PhaseSpaceFactor": sqrt(Q),
         "PhaseSpaceFactorAbs": sqrt(te.app("Abs", [Q])),
@@ -71,126 +195,260 @@ def run(ctx: Check, tree: Tree) -> None:
     }
     for name, root in variants.items():
         cls = tree.cls(f"{PH}::{name}")
-        got = unfold1(C(name, s, m1, m2))
+        where = tree.loc(_evaluate_of(tree, cls).node)
+        got = _unfold1(te, _construct(te, name, s, m1, m2))
+        _require_understood(te, got, f"{name}.evaluate", {"Abs", "ComplexSqrt"})
         want = 2 * root / sqrt(s)
-        ok = equal(got, want)
-        ctx.verdict(ok, "R-TERM", f"{cls.qual}.evaluate::skeleton", tree.loc(cls.methods["evaluate"].node),
+        ok = _same(te, got, want)
+        ctx.verdict(ok, "R-TERM", f"{cls.qual}.evaluate::skeleton", where,
                     f"{name}(s, m1, m2) == 2*{ {'PhaseSpaceFactor': 'sqrt', 'PhaseSpaceFactorAbs': 'sqrt(Abs(.))', 'PhaseSpaceFactorComplex': 'ComplexSqrt'}[name] }(q^2(s, m1, m2))/sqrt(s)",
                     None if ok else repr(got)[:200])
 
-    # ---- ComplexSqrt
-    ctx.section(check_complex_sqrt, ctx, tree, te)
 
-    # ---- (d) Chew-Mandelstam based variants
+def _chew_mandelstam_term(te: TermEval, tree: Tree):
+    s, m1, m2 = S, M1, M2
     cm = tree.func(f"{PH}::chew_mandelstam_s_wave")
     got_cm = te._rf(te.eval_function(cm, [s, m1, m2]))
+    return cm, got_cm
+
+
+def check_chew_mandelstam(ctx: Check, tree: Tree, te: TermEval) -> None:
+    s, m1, m2 = S, M1, M2
+    # ---- (d) Chew-Mandelstam based variants
+    Q = _construct(te, "BreakupMomentumSquared", s, m1, m2)
+    cm, got_cm = _chew_mandelstam_term(te, tree)
+    _require_understood(te, got_cm, "chew_mandelstam_s_wave", {"log", "ComplexSqrt"})
     q = te.app("ComplexSqrt", [Q])
     left = 2 * q / sqrt(s) * te.app("log", [(m1**2 + m2**2 - s + 2 * sqrt(s) * q) / (2 * m1 * m2)])
     right = (m1**2 - m2**2) * (RF.const(1) / s - RF.const(1) / (m1 + m2) ** 2) * te.app("log", [m1 / m2])
     want_cm = (left - right) / PI
-    ok = equal(got_cm, want_cm)
+    ok = _same(te, got_cm, want_cm)
     ctx.verdict(ok, "R-TERM", f"{cm.qual}::formula", tree.loc(cm.node),
                 "chew_mandelstam_s_wave == (1/pi)[(2q/sqrt s) log((m1^2+m2^2-s+2 sqrt(s) q)/(2 m1 m2)) - (m1^2-m2^2)(1/s - 1/(m1+m2)^2) log(m1/m2)], q = ComplexSqrt(q^2)",
                 None if ok else repr(got_cm)[:300])
     sw = tree.cls(f"{PH}::PhaseSpaceFactorSWave")
-    got = unfold1(C("PhaseSpaceFactorSWave", s, m1, m2))
-    ok = equal(got, -I * got_cm)
-    ctx.verdict(ok, "R-TERM", f"{sw.qual}.evaluate", tree.loc(sw.methods["evaluate"].node), "PhaseSpaceFactorSWave(s, m1, m2) == -i * chew_mandelstam_s_wave(s, m1, m2)", None if ok else repr(got)[:200])
+    sw_where = tree.loc(_evaluate_of(tree, sw).node)
+    got = _unfold1(te, _construct(te, "PhaseSpaceFactorSWave", s, m1, m2))
+    _require_understood(te, got, "PhaseSpaceFactorSWave.evaluate", {"log", "ComplexSqrt"})
+    ok = _same(te, got, -I * got_cm)
+    ctx.verdict(ok, "R-TERM", f"{sw.qual}.evaluate", sw_where, "PhaseSpaceFactorSWave(s, m1, m2) == -i * chew_mandelstam_s_wave(s, m1, m2)", None if ok else repr(got)[:200])
 
+
+def check_equal_mass(ctx: Check, tree: Tree, te: TermEval) -> None:
+    s, m1, m2 = S, M1, M2
     eq = tree.cls(f"{PH}::EqualMassPhaseSpaceFactor")
-    got = te.unfold_atom(te.single_atom(C("EqualMassPhaseSpaceFactor", s, m1, m2)))
-    rho = C("PhaseSpaceFactorAbs", s, m1, m2)
+    eq_where = tree.loc(_evaluate_of(tree, eq).node)
+    got = te.unfold_atom(te.single_atom(_construct(te, "EqualMassPhaseSpaceFactor", s, m1, m2)))
+    rho = _construct(te, "PhaseSpaceFactorAbs", s, m1, m2)
+    if not isinstance(got, PW):
+        raise AnalysisError("EqualMassPhaseSpaceFactor.evaluate does not evaluate to a Piecewise (shape outside the rule's grammar)")
+    if len(got.branches) != 3:
+        raise AnalysisError(f"EqualMassPhaseSpaceFactor.evaluate is a Piecewise with {len(got.branches)} rows: the rule only compares the three-row case table (cannot decide)")
     problems = []
-    if not (isinstance(got, PW) and len(got.branches) == 3):
-        problems.append("not a three-branch Piecewise")
-    else:
-        lg = te.app("log", [te.app("Abs", [(1 + rho) / (1 - rho)])])
-        want_vals = [I * rho / PI * lg, rho + I * rho / PI * lg, 2 * I * rho / PI * te.app("atan", [1 / rho])]
-        want_conds = [("<", s, RF.const(0)), (">", s, (m1 + m2) ** 2), None]
-        for i, ((val, cond), wv, wc) in enumerate(zip(got.branches, want_vals, want_conds)):
-            if not (isinstance(val, RF) and equal(val, wv)):
-                problems.append(f"row {i}: value {val!r:.120} differs from the PDG form")
-            if wc is None:
-                if not (isinstance(cond, Opaque) and cond.key is True):
-                    problems.append(f"row {i}: condition is not `True`")
-            else:
-                op, lhs, rhs = wc
-                ok_c = isinstance(cond, Rel) and (
-                    (cond.op == op and equal(te._rf(cond.lhs), lhs) and equal(te._rf(cond.rhs), rhs))
-                    or (cond.op == {"<": ">", ">": "<"}[op] and equal(te._rf(cond.lhs), rhs) and equal(te._rf(cond.rhs), lhs))
-                )
-                if not ok_c:
-                    problems.append(f"row {i}: condition is not `s {op} {'0' if i == 0 else '(m1+m2)^2'}`")
-    ctx.verdict(not problems, "R-TABLE", f"{eq.qual}.evaluate::case-table", tree.loc(eq.methods["evaluate"].node),
+    lg = te.app("log", [te.app("Abs", [(1 + rho) / (1 - rho)])])
+    want_vals = [I * rho / PI * lg, rho + I * rho / PI * lg, 2 * I * rho / PI * te.app("atan", [1 / rho])]
+    want_conds = [("<", s, RF.const(0)), (">", s, (m1 + m2) ** 2), None]
+    labels = ["s < 0", "s > (m1+m2)^2", "True"]
+
+    def cond_is(cond, wc) -> bool:
+        if wc is None:
+            return isinstance(cond, Opaque) and cond.key is True
+        op, lhs, rhs = wc
+        return isinstance(cond, Rel) and (
+            (cond.op == op and equal(te._rf(cond.lhs), lhs) and equal(te._rf(cond.rhs), rhs))
+            or (cond.op == {"<": ">", ">": "<"}[op] and equal(te._rf(cond.lhs), rhs) and equal(te._rf(cond.rhs), lhs))
+        )
+
+    for val, cond in got.branches:
+        if not isinstance(val, RF):
+            raise AnalysisError("EqualMassPhaseSpaceFactor.evaluate: a row value is not a scalar term")
+        _require_understood(te, val, "EqualMassPhaseSpaceFactor.evaluate", {"log", "atan", "Abs"})
+        if not ((isinstance(cond, Opaque) and cond.key is True) or (isinstance(cond, Rel) and cond.op in {"<", "<=", ">", ">=", "==", "!="})):
+            raise AnalysisError(f"EqualMassPhaseSpaceFactor.evaluate: row condition {cond!r:.60} is not a relation (shape outside the rule's grammar)")
+        if isinstance(cond, Rel):
+            _require_understood(te, te._rf(cond.lhs) - te._rf(cond.rhs), "EqualMassPhaseSpaceFactor.evaluate (row condition)")
+    if not (isinstance(got.branches[-1][1], Opaque) and got.branches[-1][1].key is True):
+        problems.append("row 2: condition is not `True`")
+    # the first two rows are disjoint regions: their order in the table does not matter
+    rows = list(got.branches)
+    order = [0, 1, 2]
+    if cond_is(rows[0][1], want_conds[1]) and cond_is(rows[1][1], want_conds[0]):
+        order = [1, 0, 2]
+    for i, j in enumerate(order):
+        val, cond = rows[j]
+        if not _same(te, val, want_vals[i]):
+            problems.append(f"row {j}: value {val!r:.120} differs from the PDG form for {labels[i]}")
+        if i < 2 and not cond_is(cond, want_conds[i]):
+            problems.append(f"row {j}: condition is not `s {want_conds[i][0]} {'0' if i == 0 else '(m1+m2)^2'}`")
+    ctx.verdict(not problems, "R-TABLE", f"{eq.qual}.evaluate::case-table", eq_where,
                 "EqualMassPhaseSpaceFactor: rows (s<0: i rho^/pi log|..|), (s>(m1+m2)^2: rho^ + i rho^/pi log|..|), (else: 2i rho^/pi atan(1/rho^)) with rho^ = PhaseSpaceFactorAbs(s, m1, m2)",
                 problems or None)
-    from .c14 import check_arg_order
 
-    ctx.section(check_arg_order, ctx, tree)
+
+def _definition_problems(te: TermEval, pw, x: RF) -> list[str]:
+    """Compare a two-row Piecewise with ComplexSqrt's definition (either order of the rows)."""
+    (v1, c1), (v2, c2) = pw.branches
+    if not (isinstance(c2, Opaque) and c2.key is True):
+        raise AnalysisError("ComplexSqrt.get_definition: the last row of the Piecewise is not the `True` row (shape outside the rule's grammar)")
+    if not isinstance(c1, Rel) or c1.op not in {"<", "<=", ">", ">="}:
+        raise AnalysisError("ComplexSqrt.get_definition: the first condition is not an order relation (shape outside the rule's grammar)")
+    lhs, rhs = te._rf(c1.lhs), te._rf(c1.rhs)
+    if equal(lhs, x) and rhs.is_zero():
+        op = c1.op
+    elif equal(rhs, x) and lhs.is_zero():
+        op = {"<": ">", "<=": ">=", ">": "<", ">=": "<="}[c1.op]
+    else:
+        raise AnalysisError("ComplexSqrt.get_definition: the first condition does not compare the argument with 0 (shape outside the rule's grammar)")
+    if not (isinstance(v1, RF) and isinstance(v2, RF)):
+        raise AnalysisError("ComplexSqrt.get_definition: a row value is not a scalar term")
+    problems = []
+    # rows as (value on x < 0, value elsewhere); `x >= 0` first is the same table written the other way round
+    if op in {"<", "<="}:
+        negative, other = v1, v2
+        if op == "<=":
+            problems.append("first condition is not the strict `x < 0`")
+    else:
+        negative, other = v2, v1
+        if op == ">":
+            problems.append("first condition `x > 0` sends x == 0 to the imaginary row (the definition uses the strict `x < 0`)")
+    if not equal(negative, I * sqrt(-x)):
+        problems.append(f"negative branch is {negative!r}, not I*sqrt(-x)")
+    if not equal(other, sqrt(x)):
+        problems.append(f"other branch is {other!r}, not sqrt(x)")
+    return problems
+
+
+def _py_term(te, node: ast.AST, what: str) -> RF:
+    """A scalar expression of generated Python code over printed values, ``1j``, ``sqrt`` and ``csqrt``."""
+    from .c08 import _callee_name, _token_index
+
+    k = _token_index(node)
+    if k is not None:
+        return te._rf(te.tokens[k])
+    if isinstance(node, ast.Constant) and isinstance(node.value, complex) and node.value.real == 0 and node.value.imag == int(node.value.imag):
+        return I * int(node.value.imag)
+    if isinstance(node, ast.Constant) and isinstance(node.value, int) and not isinstance(node.value, bool):
+        return RF.const(node.value)
+    if isinstance(node, ast.UnaryOp) and isinstance(node.op, (ast.USub, ast.UAdd)):
+        v = _py_term(te, node.operand, what)
+        return -v if isinstance(node.op, ast.USub) else v
+    if isinstance(node, ast.BinOp) and isinstance(node.op, (ast.Add, ast.Sub, ast.Mult, ast.Div)):
+        a, b = _py_term(te, node.left, what), _py_term(te, node.right, what)
+        return {ast.Add: lambda: a + b, ast.Sub: lambda: a - b, ast.Mult: lambda: a * b, ast.Div: lambda: a / b}[type(node.op)]()
+    if isinstance(node, ast.Call) and len(node.args) == 1 and not node.keywords and _callee_name(node) == "sqrt" and isinstance(node.func, ast.Name):
+        return sqrt(_py_term(te, node.args[0], what))
+    raise AnalysisError(f"{what}: `{unparse(node)[:50]}` is outside the rule's grammar")
 
 
 def check_complex_sqrt(ctx: Check, tree: Tree, te: TermEval) -> None:
+    from .c08 import CodeEval, _token_index, parse_code
+    from ..terms import ExtractionError, vkey
+
     cls = tree.cls("ampform.sympy.math::ComplexSqrt")
-    gd = cls.methods.get("get_definition")
+    gd = tree.lookup_method(cls, "get_definition")
     if gd is None:
         raise AnalysisError("vanished anchor: ComplexSqrt.get_definition")
     x = sym("x")
-    pw = te.eval_body(gd.node.body, {"self": {"args": Tup([x])}}, gd)
-    problems = []
-    if not (isinstance(pw, PW) and len(pw.branches) == 2):
-        problems.append("not a two-branch Piecewise")
-    else:
-        (v1, c1), (v2, c2) = pw.branches
-        if not (isinstance(v1, RF) and equal(v1, I * sqrt(-x))):
-            problems.append(f"negative branch is {v1!r}, not I*sqrt(-x)")
-        if not (isinstance(c1, Rel) and ((c1.op == "<" and equal(te._rf(c1.lhs), x) and te._rf(c1.rhs).is_zero()) or (c1.op == ">" and equal(te._rf(c1.rhs), x) and te._rf(c1.lhs).is_zero()))):
-            problems.append("first condition is not the strict `x < 0`")
-        if not (isinstance(v2, RF) and equal(v2, sqrt(x))):
-            problems.append(f"other branch is {v2!r}, not sqrt(x)")
-        if not (isinstance(c2, Opaque) and c2.key is True):
-            problems.append("second condition is not `True`")
+    struct = {"args": Tup([x])}
+    pw = te.eval_body(gd.node.body, {"self": struct}, gd)
+    if not isinstance(pw, PW):
+        raise AnalysisError("ComplexSqrt.get_definition does not evaluate to a Piecewise (shape outside the rule's grammar)")
+    if len(pw.branches) != 2:
+        raise AnalysisError(f"ComplexSqrt.get_definition is a Piecewise with {len(pw.branches)} rows: the rule only compares two-row tables (cannot decide)")
+    problems = _definition_problems(te, pw, x)
     ctx.verdict(not problems, "R-TERM", f"{cls.qual}.get_definition", tree.loc(gd.node), "ComplexSqrt(x) := Piecewise((I*sqrt(-x), x < 0), (sqrt(x), True))", problems or None)
-    # _numpycode prints exactly that definition
-    npc = cls.methods.get("_numpycode")
-    helper_calls = [c for c in walk_function(npc.node) if isinstance(c, ast.Call) and isinstance(c.func, ast.Attribute) and isinstance(c.func.value, ast.Name) and c.func.value.id == "self"]
-    ok = False
-    for c in helper_calls:
-        h = tree.lookup_method(cls, c.func.attr)
-        if h is None:
-            continue
-        rd = RD(h.node)
-        for ret, _ in rd.returns:
-            if isinstance(ret.value, ast.Call) and isinstance(ret.value.func, ast.Attribute) and ret.value.func.attr == "_print":
-                arg = ret.value.args[0]
-                txt = unparse(arg) + "".join(unparse(d.value) for d in rd.closure(rd.uses(arg)) if d.value is not None)
-                ok = "self.get_definition()" in txt
-    direct = any("self.get_definition()" in unparse(n) for n in walk_function(npc.node))
-    # ... on EVERY path: a branch that prints something else for one printer (e.g. numpy.lib.scimath.sqrt, whose
-    # result dtype depends on the data: float64 if no input is negative) is a second definition
-    other = []
-    for r in [r for r in walk_function(npc.node, nested=False) if isinstance(r, ast.Return) and r.value is not None]:
-        v = r.value
-        via_helper = isinstance(v, ast.Call) and isinstance(v.func, ast.Attribute) and isinstance(v.func.value, ast.Name) and v.func.value.id == "self"
-        via_print = isinstance(v, ast.Call) and isinstance(v.func, ast.Attribute) and v.func.attr == "_print" and "get_definition()" in unparse(v)
-        if not (via_helper or via_print):
-            other.append(unparse(r)[:70])
-    if other:
+
+    # _numpycode prints exactly that definition - on EVERY path: a branch that prints something else for one printer
+    # (e.g. numpy.lib.scimath.sqrt, whose result dtype depends on the data: float64 if no input is negative) is a
+    # second definition.  The method is RUN on the abstract printer (helpers, locals, early returns followed); each
+    # path must return the code of ONE printed value, and that value must be get_definition().
+    npc = tree.lookup_method(cls, "_numpycode")
+    if npc is None:
+        raise AnalysisError("vanished anchor: ComplexSqrt._numpycode")
+    ce = CodeEval(tree)
+    ce.fork = True
+    out = ce.eval_body_of_printer(npc, {"args": Tup([x])})
+    paths = [v for v, _ in out.branches] if isinstance(out, PW) else [out]
+    want_key = vkey(pw)
+    prints, other = 0, []
+    for val in paths:
+        if not (isinstance(val, Opaque) and isinstance(val.key, str)):
+            raise AnalysisError("ComplexSqrt._numpycode: a path does not return a string built from literals and printed values")
+        expr = parse_code(val.key, npc.qual)
+        k = _token_index(expr)
+        try:
+            same = k is not None and vkey(ce.tokens[k]) == want_key
+        except ExtractionError:
+            same = False
+        if same:
+            prints += 1
+        else:
+            shown = re.sub("\x00\\d+\x00", "{..}", val.key)[:70]
+            other.append(shown if k is None else f"prints {ce.tokens[k]!r:.70}")
+    if prints and other:
         ctx.violation("R-ONEDEF", f"{cls.qual}._numpycode::second-definition", tree.loc(npc.node),
                       f"ComplexSqrt._numpycode has a path that does not print get_definition(): {other}",
                       "e.g. numpy.lib.scimath.sqrt returns float64 unless some input is negative; code that relies on the complex result (log of a negative number in chew_mandelstam_s_wave) then yields NaN above threshold")
-    ctx.verdict(ok or direct, "R-ONEDEF", f"{cls.qual}._numpycode::prints-definition", tree.loc(npc.node), "ComplexSqrt._numpycode prints self.get_definition() (one definition for symbolic and numerical form)")
-    # _pythoncode: the same two-branch function
-    pyc = cls.methods.get("_pythoncode")
-    ret = next((r for r in walk_function(pyc.node) if isinstance(r, ast.Return)), None)
-    parts = []
-    if ret is not None and isinstance(ret.value, ast.JoinedStr):
-        for v in ret.value.values:
-            parts.append(str(v.value) if isinstance(v, ast.Constant) else "X")
-    text = "".join(parts).replace(" ", "")
-    m = re.fullmatch(r"\(*1j\*sqrt\(-\(?X\)?\)+ifisinstance\(X,\((?:float,int|int,float)\)\)and\(X<0\)else\(*csqrt\(X\)\)*", text)
-    imports = [unparse(n) for n in walk_function(pyc.node) if isinstance(n, ast.Call) and "module_imports" in unparse(n)]
-    ok = bool(m) and any("sqrt as csqrt" in i and "cmath" in i for i in imports)
+    ctx.verdict(prints > 0, "R-ONEDEF", f"{cls.qual}._numpycode::prints-definition", tree.loc(npc.node),
+                "ComplexSqrt._numpycode prints self.get_definition() (one definition for symbolic and numerical form)", other or None)
+
+    # _pythoncode: the same two-row function, read from the code it generates
+    pyc = tree.lookup_method(cls, "_pythoncode")
+    if pyc is None:
+        raise AnalysisError("vanished anchor: ComplexSqrt._pythoncode")
+    ce = CodeEval(tree)
+    text = ce.run_printer(pyc, {"args": Tup([x])})
+    expr = parse_code(text, pyc.qual)
+    what = "ComplexSqrt._pythoncode"
+    if not isinstance(expr, ast.IfExp):
+        raise AnalysisError(f"{what}: the generated code is not a conditional expression (shape outside the rule's grammar)")
+    test, on_true, on_false = expr.test, expr.body, expr.orelse
+    if isinstance(test, ast.UnaryOp) and isinstance(test.op, ast.Not):
+        test, on_true, on_false = test.operand, on_false, on_true
+    problems = []
+    # the test: real number AND negative, in this order (a complex x cannot be compared with 0)
+    if not (isinstance(test, ast.BoolOp) and isinstance(test.op, ast.And) and len(test.values) == 2):
+        raise AnalysisError(f"{what}: the test `{unparse(test)[:60]}` is not `isinstance(x, (float, int)) and x < 0` (shape outside the rule's grammar)")
+    is_real, is_negative = test.values
+    if not (isinstance(is_real, ast.Call) and isinstance(is_real.func, ast.Name) and is_real.func.id == "isinstance" and len(is_real.args) == 2
+            and _token_index(is_real.args[0]) is not None and isinstance(is_real.args[1], (ast.Tuple, ast.Name))):
+        raise AnalysisError(f"{what}: the first conjunct `{unparse(is_real)[:50]}` is not an isinstance test of the printed argument")
+    kinds = {e.id for e in (is_real.args[1].elts if isinstance(is_real.args[1], ast.Tuple) else [is_real.args[1]]) if isinstance(e, ast.Name)}
+    if kinds != {"float", "int"}:
+        problems.append(f"the imaginary row is taken for instances of {sorted(kinds)}, not exactly (float, int)")
+    if not (isinstance(is_negative, ast.Compare) and len(is_negative.ops) == 1):
+        raise AnalysisError(f"{what}: the second conjunct `{unparse(is_negative)[:50]}` is not a comparison")
+    lhs, op, rhs = is_negative.left, type(is_negative.ops[0]), is_negative.comparators[0]
+    if _token_index(rhs) is not None and isinstance(lhs, ast.Constant):
+        lhs, rhs, op = rhs, lhs, {ast.Lt: ast.Gt, ast.Gt: ast.Lt, ast.LtE: ast.GtE, ast.GtE: ast.LtE}.get(op, op)
+    if not (_token_index(lhs) is not None and isinstance(rhs, ast.Constant) and rhs.value == 0 and op in {ast.Lt, ast.LtE, ast.Gt, ast.GtE}):
+        raise AnalysisError(f"{what}: the second conjunct `{unparse(is_negative)[:50]}` does not compare the printed argument with 0")
+    if op is not ast.Lt:
+        problems.append("the imaginary row is not taken for exactly `x < 0`")
+    xs = {vkey(ce.tokens[_token_index(n)]) for n in ast.walk(expr) if _token_index(n) is not None}
+    if xs != {vkey(x)}:
+        problems.append("a printed value other than the argument occurs in the code")
+    if not equal(_py_term(ce, on_true, what), I * sqrt(-x)):
+        problems.append("the row for negative real x is not 1j*sqrt(-x)")
+    from .c08 import _callee_name
+
+    if not (isinstance(on_false, ast.Call) and len(on_false.args) == 1 and not on_false.keywords and _token_index(on_false.args[0]) is not None and isinstance(on_false.func, ast.Name)):
+        raise AnalysisError(f"{what}: the other row `{unparse(on_false)[:50]}` is not one function of the printed argument (shape outside the rule's grammar)")
+    root = on_false.func.id
+    registrations = [c for c in ast.walk(pyc.node) if isinstance(c, ast.Call) and any(isinstance(n, ast.Attribute) and n.attr == "module_imports" for n in ast.walk(c.func))]
+    for call, callee in tree.calls_in(pyc):
+        if callee in tree.funcs:
+            registrations += [c for c in ast.walk(tree.funcs[callee].node) if isinstance(c, ast.Call) and any(isinstance(n, ast.Attribute) and n.attr == "module_imports" for n in ast.walk(c.func))]
+    if not registrations:
+        raise AnalysisError(f"{what}: no registration in printer.module_imports found (cannot tell where `{root}` comes from)")
+
+    def strings(c):
+        return {n.value for n in ast.walk(c) if isinstance(n, ast.Constant) and isinstance(n.value, str)}
+
+    if not any("cmath" in strings(c) and (f"sqrt as {root}" in strings(c) or (root == "sqrt" and "sqrt" in strings(c))) for c in registrations):
+        problems.append(f"`{root}` is not registered as cmath.sqrt in printer.module_imports")
+    ok = not problems
     ctx.verdict(ok, "R-TERM", f"{cls.qual}._pythoncode::two-branch", tree.loc(pyc.node),
-                "ComplexSqrt._pythoncode: (1j*sqrt(-x)) if real and x < 0 else cmath.sqrt(x) - the same two rows as get_definition", None if ok else text[:160])
+                "ComplexSqrt._pythoncode: (1j*sqrt(-x)) if real and x < 0 else cmath.sqrt(x) - the same two rows as get_definition", None if ok else {"problems": problems, "code": re.sub("\x00\\d+\x00", "X", text)[:160]})
     lam = [st for st in tree.module("ampform.sympy.math").tree.body if isinstance(st, ast.Assign) and "builtin_functions_different" in unparse(st)]
     ctx.info("R-TERM", tree.loc(lam[0]) if lam else "src/ampform/sympy/math.py", "experimental Lambdifier maps ComplexSqrt -> sqrt (plotting backend only)")
